@@ -358,6 +358,12 @@ func (s *Service) getAggregatorsSignatureData(
 	}
 
 	for i, signature := range sigs {
+		if signature.IsZero() {
+			// The account could not sign the selection data; without a
+			// selection proof it cannot be an aggregator.
+			continue
+		}
+
 		// Hash the signature.
 		sigHash := sha256.New()
 		n, err := sigHash.Write(signature[:])
